@@ -29,10 +29,11 @@ func runC14(p *Program, r *Report) {
 	for _, m := range []struct {
 		r string
 		n int
-	}{{"C14.R1", 6}, {"C14.R4", 6}, {"C14.R5", 1}, {"C14.R6", 1}, {"C14.R7", 1}} {
+	}{{"C14.R1", 6}, {"C14.R4", 6}, {"C14.R5", 1}, {"C14.R6", 1}, {"C14.R7", 1}, {"C14.R8", 1}} {
 		r.Min(m.r, m.n)
 	}
 	checkRangeReentryAgreement(p, r, "C14.R6")
+	checkJoinRecordsValueDisagreement(p, r, "C14.R8")
 	// ---- R1 tables -------------------------------------------------------------
 	t := checkURLProcEscapeMode(p, r, "C14.R1")
 	if t != nil {
